@@ -126,11 +126,26 @@ def entropy(probs, base):
     return -math.fsum(p * math.log(p) / math.log(base) for p in probs)
 
 
-def gsl_1sample(sim_sym, obs_sym, L, nb_values, T):
+def pinned_packed_words(sym, length):
+    """the word packing of the pinned commit, copied verbatim (an int32 accumulator plus symbols times 10**k as Python integers: numpy promotes
+    to float64 once 10**k leaves the int64 range).  Used ONLY to recognise the recorded known finding (lossy packing for >= 10 symbols / long
+    words) when the implementation deviates from the documented tuple words; it is not a reference for correct behaviour."""
+    ts = np.asarray(sym)
+    tswlen = len(ts) + 1 - length
+    tsw = np.zeros(shape=(tswlen,), dtype=np.int32)
+    for i in range(length):
+        k = 10 ** (length - i - 1)
+        tsw = tsw + ts[i: tswlen + i] * k
+    return tsw.tolist()
+
+
+def gsl_1sample(sim_sym, obs_sym, L, nb_values, T, pinned_packing=False):
     tot, weight = 0.0, 0.0
     for l in range(1, L + 1):
         sw = [tuple(sim_sym[i:i + l]) for i in range(len(sim_sym) + 1 - l)]
         ow = [tuple(obs_sym[i:i + l]) for i in range(len(obs_sym) + 1 - l)]
+        if pinned_packing:
+            sw, ow = pinned_packed_words(sim_sym, l), pinned_packed_words(obs_sym, l)
         mw = sw + ow
         def probs(ws):
             c = {}
@@ -145,7 +160,7 @@ def gsl_1sample(sim_sym, obs_sym, L, nb_values, T):
     return tot
 
 
-def gsl(sim, real, nb_values=None, nb_word_lengths=None, weights=None):
+def gsl(sim, real, nb_values=None, nb_word_lengths=None, weights=None, pinned_packing=False):
     e, n, d = sim.shape
     w = [1.0 / d] * d if weights is None else list(weights)
     tot = 0.0
@@ -154,7 +169,7 @@ def gsl(sim, real, nb_values=None, nb_word_lengths=None, weights=None):
     L = int((T - 1) / 2.0) if nb_word_lengths is None else nb_word_lengths
     for i in range(d):
         obs = discretize(real[:, i], nv)
-        l1 = mean([gsl_1sample(discretize(sim[j, :, i], nv), obs, L, nv, T) for j in range(e)])
+        l1 = mean([gsl_1sample(discretize(sim[j, :, i], nv), obs, L, nv, T, pinned_packing) for j in range(e)])
         tot += l1 * w[i]
     return tot
 
